@@ -104,6 +104,16 @@ def run(ctx):
     parallel(ctx)
 
 
+_ENG = {}
+
+
+def _engine(prog):
+    from sa.svn import Engine
+    if id(prog) not in _ENG:
+        _ENG[id(prog)] = Engine(prog)
+    return _ENG[id(prog)]
+
+
 def confirm(prog, b, lst, cls):
     """cheap structural confirmation of the reviewed consumer class"""
     cfg = CFG(b)
@@ -125,7 +135,33 @@ def confirm(prog, b, lst, cls):
         chain.append(call_chain(b, cfg, bn, t))
     flat = [' -> '.join(c) for c in chain]
     if cls == 'key-equality-find':
-        return all('find' in c for c in chain), flat
+        if not all('find' in c for c in chain):
+            return False, flat
+        # the predicate must be a single equality between the key component of the item and a value that does not depend
+        # on the item: then at most one entry can match (keys are unique) and the result is independent of the order
+        from sa.svn import Engine
+        from sa.terms import walk, show
+        eng = _engine(prog)
+        preds = []
+        for _, bn, t in lst:
+            for cl in prog.closures_of(b.fid):
+                m = re.search(r'\{closure@[^}]*\}', cl.params[0][1]) if cl.params else None
+                if m and any(m.group(0) in tt.callee and strip_generics(tt.callee).split('::')[-1] == 'find' for _, tt in cfg.call_sites()):
+                    preds.append(cl)
+        if not preds:
+            return False, 'predicate closure of find() not found'
+        for cl in preds:
+            an = eng.analysis(cl)
+            r = an.ret() if an.exit_state is not None else None
+            item = ('obj', cl.params[1][0]) if len(cl.params) > 1 else None
+            ok = r is not None and r[0] == 'eq' and len(r) == 3
+            if ok:
+                sides = [any(x[0] == 'pre' and x[1][0] == item for x in walk(sd)) for sd in (r[1], r[2])]
+                key_side = r[1] if sides[0] else r[2]
+                ok = sides.count(True) == 1 and key_side[0] == 'pre' and key_side[1][:2] == (item, ('f', '#0'))
+            if not ok:
+                return False, 'find() predicate is %s: not a single equality on the key, so more than one entry may match and the first in hash order wins' % (show(r, an.names)[:120] if r else None)
+        return True, flat
     if cls == 'commutative-integer-fold':
         ok = all(('fold' in c or 'sum' in c) for c in chain) and all(re.search(r'HashMap::<[^>]*, (u8|u16|u32|u64|usize|i32|i64)>', t.callee) for _, _, t in lst)
         return ok, flat
